@@ -25,6 +25,76 @@ def perturb(rng, text, regdefs):
     return text[:i] + rng.choice("0123456789") + text[i:]
 
 
+DELIMS = [";", ",", "|", "\t", "\t", " ", " "]
+
+
+def delim_defs_ok(regdefs):
+    """premise 'unambiguous identifiers' + tokenisation premise for DELIMITED register types, on the definitions alone: a line
+    written by type r begins with r's (trimmed) identifier followed by r's delimiter, so no EARLIER type's window may reach
+    beyond that text or find its identifier in it; no field's own rendering can contain the delimiter (decimal separator,
+    date format literals) and the identifier is a token (no blanks around it, no delimiter in it)."""
+    for j, r in enumerate(regdefs):
+        d, ident = r["delim"], r["ident"]
+        if not ident or ident != ident.strip() or d in ident:
+            return False
+        for fd in r["fields"]:
+            if fd["k"] == "float" and fd["sep"] == d:
+                return False
+            if fd["k"] == "date" and any(d in f for f in fd["formats"]):
+                return False
+        head = ident + d
+        for e in regdefs[:j]:
+            if e["digits"] > len(head) or e["ident"] in head[: e["digits"]]:
+                return False
+    return True
+
+
+def gen_delim_regdefs(rng):
+    """1-3 delimited register types; each type has its own delimiter, blank delimiters (tab, space) as often as visible ones"""
+    regdefs = reglib.gen_regdefs(rng, nmax=3, delim=True)
+    for rd in regdefs:
+        rd["delim"] = rng.choice(DELIMS)
+        rd["digits"] = len(rd["ident"]) + rng.choice([0, 0, 0, 1, 2])
+    return regdefs
+
+
+def gen_delim_line(rng, regdefs):
+    """one line of a delimited type, token by token (each token rendered through a one-field positional Line, so the text
+    does not depend on the delimited writer): all tokens, FEWER tokens than fields, the last tokens empty, blanks around
+    the tokens, one token too many; a third of the values are missing (empty tokens anywhere, also at the end)"""
+    from cfinterface.components.line import Line
+    r = rng.choice(regdefs)
+    toks = [r["ident"]]
+    for fd in r["fields"]:
+        f1 = dict(fd)
+        f1["start"] = 0
+        try:
+            toks.append(Line([fl.mk_field(f1)]).write([fl.py_value(fl.gen_value(rng, fd, missing=0.3))])[:-1].strip())
+        except (OverflowError, TypeError, ValueError):
+            toks.append("")
+    m = rng.random()
+    if m < 0.22 and len(toks) > 1:
+        toks = toks[: rng.randint(1, len(toks) - 1)]
+    elif m < 0.4:
+        k = rng.randint(1, len(toks) - 1) if len(toks) > 1 else 0
+        toks = toks[: len(toks) - k] + [""] * k
+    elif m < 0.5:
+        toks = [rng.choice(["", " ", "  "]) + t + rng.choice(["", " ", "  "]) for t in toks]
+    elif m < 0.56:
+        toks.append(rng.choice(["7", "x", ""]))
+    return r["delim"].join(toks)
+
+
+def tokens_ok(case):
+    """tokenisation premise of a delimited write, on the data: no literal value contains its type's delimiter"""
+    for i, d in case["elems"]:
+        if i >= 0:
+            dl = case["regdefs"][i].get("delim")
+            if dl is not None and any(v is not None and v[0] == "str" and dl in v[1] for v in d):
+                return False
+    return True
+
+
 class CHECK(Check):
     pid = "C06"
     entry = "REGFILE"
@@ -35,7 +105,12 @@ class CHECK(Check):
             "missing final newline). Precondition 'parsed values fit their fields' is evaluated per case by the model "
             "(others counted and skipped). A ninth of the cycles go through files on disk with the file class's declared encoding (utf-8 / latin-1 / cp1252). Observed: y = write(read(x)) and write(read(y)). non-trivial = x contains a "
             "typed line that is not already canonical (y != x) or a default line between typed lines; distinct = hash"
-            " Later additions: cycles through disk with utf-8/latin-1/cp1252, contents beginning with U+FEFF, class hierarchies.")
+            " Later additions: cycles through disk with utf-8/latin-1/cp1252, contents beginning with U+FEFF, class hierarchies."
+            " Round 12: DELIMITED register types (1-3 per list, each with its own delimiter from ; , | tab space; unambiguity and "
+            "tokenisation premises decided on the definitions, and on the data for written contents): contents of 1-12 lines in "
+            "which several records of one type follow each other with all tokens, fewer tokens than fields, empty last tokens, "
+            "missing values anywhere, blanks around tokens, an extra token, plus the grammar/perturbation lines; and contents "
+            "written from generated data.")
 
     def gen(self, tier, rng):
         n = 2500 if tier == "quick" else 60000
@@ -54,6 +129,24 @@ class CHECK(Check):
                 if rng.random() < 0.06:
                     content = "\ufeff" + content      # a byte-order mark at the start of in-memory content is a character like any other
                 yield {"regdefs": regdefs, "kind": "content", "content": content}
+        # delimited register types: records of one type after each other, short lines, empty last tokens, blank delimiters
+        n = 400 if tier == "quick" else 10000
+        made = 0
+        while made < n:
+            regdefs = gen_delim_regdefs(rng)
+            if not delim_defs_ok(regdefs):
+                continue
+            made += 1
+            if rng.random() < 0.25:
+                yield {"regdefs": regdefs, "kind": "written", "elems": gen_data(rng, regdefs, allnone=0.0), "delimited": True}
+            else:
+                lines = []
+                for _ in range(rng.randint(1, 12)):
+                    l = gen_delim_line(rng, regdefs) if rng.random() < 0.75 else gen_line(rng, regdefs)
+                    lines.append(perturb(rng, l, regdefs) if rng.random() < 0.4 else l)
+                lines = [l for l in lines if "\n" not in l]
+                content = "\n".join(lines) + (rng.choice(["\n", "\n", ""]) if lines else "")
+                yield {"regdefs": regdefs, "kind": "content", "content": content, "delimited": True}
 
     def content_of(self, case, regs, F):
         if case["kind"] == "content":
@@ -119,6 +212,8 @@ class CHECK(Check):
         return {"x": x, "y": fl.ostr(y), "y2": fl.ostr(y2), "fits": bool(fits) and y != [] and y2 != []}
 
     def in_domain(self, case, mobs):
+        if case.get("delimited") and case["kind"] == "written" and not tokens_ok(case):
+            return False
         return mobs["fits"]
 
     def compare(self, case, iobs, mobs):
@@ -147,7 +242,11 @@ class CHECK(Check):
         return isinstance(obs, dict) and "y" in obs and (obs["y"] != obs["x"] or case["kind"] == "written") and len(obs["x"]) > 0
 
     def classify(self, case):
-        return {"kind_" + case["kind"]: 1, "types_%d" % len(case["regdefs"]): 1}
+        out = {"kind_" + case["kind"]: 1, "types_%d" % len(case["regdefs"]): 1}
+        if case.get("delimited"):
+            out["delimited_" + case["kind"]] = 1
+            out["delimited_with_blank_delimiter"] = int(any(rd["delim"] in "\t " for rd in case["regdefs"]))
+        return out
 
     def signature(self, case, why):
         return why.split(":")[0]
@@ -159,6 +258,11 @@ class CHECK(Check):
                 for i in range(len(lines)):
                     c = dict(case)
                     c["content"] = "".join(lines[:i] + lines[i + 1:])
+                    yield c
+            if len(case["regdefs"]) > 1 and not any("parent" in rd for rd in case["regdefs"]):
+                for i in range(len(case["regdefs"])):
+                    c = dict(case)
+                    c["regdefs"] = case["regdefs"][:i] + case["regdefs"][i + 1:]
                     yield c
         elif len(case["elems"]) > 1:
             for i in range(len(case["elems"])):
